@@ -146,6 +146,103 @@ def suite_cf(ctx):
                                      sample={"input": {**inp, "how": how}} if (s2n and unit == "km") else None)
 
 
+def suite_cf_storage(ctx):
+    """the same grids as they are stored in real files: coordinate vectors of small integer / single precision types, and netCDF files
+    on disk whose coordinates are packed (scale_factor / add_offset)"""
+    import os
+    import shutil
+    import tempfile
+
+    import xarray as xr
+    from pyresample.geometry import AreaDefinition
+    from pyresample.utils import load_cf_area
+    r = ctx.rng
+    grids = [  # (name, proj, width, height, extent in m): every pixel centre is a whole number of km
+        ("merc_global", {"proj": "merc", "lon_0": 0, "ellps": "WGS84"}, 40, 16, (-2.0e7, -8.0e6, 2.0e7, 8.0e6)),
+        ("merc_small", {"proj": "merc", "lon_0": 0, "ellps": "WGS84"}, 7, 5, (1.0e6, 5.0e6, 1.014e6, 5.02e6)),
+        ("laea_positive", {"proj": "laea", "lat_0": 52, "lon_0": 10, "x_0": 4321000, "y_0": 3210000, "ellps": "GRS80"}, 12, 9, (3.0e6, 2.0e6, 3.048e6, 2.054e6)),
+        ("stere_wide", {"proj": "stere", "lat_0": 90, "lat_ts": 70, "lon_0": -45, "ellps": "WGS84"}, 30, 24, (-3.0e7 + 0.0, -2.4e7, 3.0e7, 2.4e7)),
+    ]
+    tmp = tempfile.mkdtemp(prefix="pyresample-verif-c20-")
+    try:
+        for gname, proj, w, h, ext in grids:
+            area = _mk(proj, w, h, ext)
+            xv, yv = (np.asarray(v, float) for v in area.get_proj_vectors())
+            with warnings.catch_warnings():
+                warnings.simplefilter("ignore")
+                cf = area.crs.to_cf()
+                lo_a, la_a = area.get_lonlats()
+            for xdesc in (False, True):
+                for s2n in (False, True):
+                    ex = xv[::-1] if xdesc else xv
+                    ey = yv[::-1] if s2n else yv
+                    lo_o = lo_a[:, ::-1] if xdesc else lo_a
+                    la_o = la_a[:, ::-1] if xdesc else la_a
+                    if s2n:
+                        lo_o, la_o = lo_o[::-1, :], la_o[::-1, :]
+                    variants = []
+                    for unit, k in (("km", 1000.0), ("m", 1.0)):
+                        sx, sy = ex / k, ey / k
+                        for dt in (np.int16, np.uint16, np.int32, np.uint32, np.int64, np.float32):
+                            info = np.iinfo(dt) if np.issubdtype(dt, np.integer) else None
+                            if info is not None and not (min(sx.min(), sy.min()) >= info.min and max(sx.max(), sy.max()) <= info.max):
+                                continue
+                            if not (np.array_equal(sx.astype(dt).astype(float), sx) and np.array_equal(sy.astype(dt).astype(float), sy)):
+                                continue
+                            variants.append((unit, np.dtype(dt).name, "memory", sx.astype(dt), sy.astype(dt), None))
+                        # on disk: packed coordinates (int16 + scale_factor/add_offset), classic netCDF through scipy
+                        stepx, stepy = abs(sx[1] - sx[0]), abs(sy[1] - sy[0])
+                        enc = {"x": {"dtype": "int16", "scale_factor": float(stepx), "add_offset": float(sx.min()), "_FillValue": None},
+                               "y": {"dtype": "int16", "scale_factor": float(stepy), "add_offset": float(sy.min()), "_FillValue": None}}
+                        variants.append((unit, "packed-int16", "file", sx, sy, enc))
+                        variants.append((unit, "float64", "file", sx, sy, None))
+                    if ctx.quick:
+                        variants = r.sample(variants, min(len(variants), 4))
+                    for unit, dname, where, sx, sy, enc in variants:
+                        data = np.arange(h * w, dtype=np.float32).reshape(h, w)
+                        ds = xr.Dataset({"field": (("y", "x"), data, {"grid_mapping": "crs"}), "crs": ((), 0, cf)},
+                                        coords={"x": ("x", sx, {"standard_name": "projection_x_coordinate", "units": unit}),
+                                                "y": ("y", sy, {"standard_name": "projection_y_coordinate", "units": unit})})
+                        inp = {"grid": gname, "extent": [float(v) for v in ext], "shape": [h, w], "x_descending": xdesc, "y_south_to_north": s2n, "units": unit,
+                               "coordinate_storage": dname, "where": where}
+                        src = ds
+                        try:
+                            with warnings.catch_warnings():
+                                warnings.simplefilter("ignore")
+                                if where == "file":
+                                    src = os.path.join(tmp, f"{gname}-{unit}-{dname}-{int(xdesc)}{int(s2n)}.nc")
+                                    ds.to_netcdf(src, engine="scipy", encoding=enc or {})
+                                    if r.random() < 0.5:
+                                        import pathlib
+                                        src = pathlib.Path(src)
+                                how = r.choice(["load_cf_area", "from_cf"])
+                                if how == "load_cf_area":
+                                    got, _ = load_cf_area(src, variable="field")
+                                else:
+                                    got = AreaDefinition.from_cf(src, variable="field")
+                                    got = got[0] if isinstance(got, tuple) else got
+                                lo_g, la_g = got.get_lonlats()
+                        except Exception as e:  # noqa
+                            ctx.fail("utils.load_cf_area", f"raised {type(e).__name__}: {str(e)[:150]}", inp, tags={"storage": dname, "where": where}, size=5)
+                            continue
+                        ctx.count(f"cf_storage.{where}.{dname}")
+                        ctx.case("cf-storage", (gname, xdesc, s2n, unit, dname, where), nontrivial=True, sample={"input": inp})
+                        probs = []
+                        if got.shape != (h, w):
+                            probs.append(f"shape {got.shape} instead of {(h, w)}")
+                        else:
+                            fin = np.isfinite(lo_o) & np.isfinite(lo_g)
+                            dl = np.abs((lo_g[fin] - lo_o[fin] + 180) % 360 - 180)
+                            if not np.array_equal(np.isfinite(lo_o), np.isfinite(lo_g)) or (dl.size and (dl.max() > 1e-6 or np.abs(la_g[fin] - la_o[fin]).max() > 1e-6)):
+                                probs.append(f"pixel (r, c) of the loaded area is not located where element (r, c) of the stored array is "
+                                             f"(max dlon {float(dl.max()) if dl.size else None} deg); loaded extent {[float(v) for v in got.area_extent]}")
+                        if probs:
+                            ctx.fail("utils.load_cf_area", f"coordinates stored as {dname} ({where}), units {unit}: " + "; ".join(probs), inp,
+                                     {"extent": [float(v) for v in got.area_extent], "shape": list(got.shape)}, tags={"storage": dname, "where": where}, size=5)
+    finally:
+        shutil.rmtree(tmp, ignore_errors=True)
+
+
 def suite_rasterio(ctx):
     import rasterio
     from rasterio.io import MemoryFile
@@ -260,5 +357,6 @@ def suite_odc_cartopy(ctx):
 
 def run(ctx):
     suite_cf(ctx)
+    suite_cf_storage(ctx)
     suite_rasterio(ctx)
     suite_odc_cartopy(ctx)
